@@ -10,14 +10,14 @@ slack after `end_`, any stale bits, borrowed or owned buffer, any reference coun
 where `specOp` is the plain `List Bool` operation of Model/Bits.lean, and the operation does not panic.
 
 PROVED here (full strength): iter8, bits, seek, peek, substr, read, split_at, detach, eq_with,
-to_bytes, to_bytes_with_padding, bytestr, slice, to_hex_string; isolation ("operands and bystanders are
-never modified") for seek/peek/substr/read/split_at/clone/drop/detach.
+to_bytes, to_bytes_with_padding, bytestr, slice, to_hex_string, append (both paths), insert, invert,
+from_hex_str, BitvecBuilder::from_bin_str;
+isolation ("operands and bystanders are never modified") for seek/peek/substr/read/split_at/clone/drop/detach
+and, through `Frame`, for append/insert/invert.
 
-NOT YET PROVED (statements kept below in the comment block at the end of the file; validated by the
-correspondence and the implementation-side oracle only): append, insert, invert refinement and their
-isolation; from_hex_str / from_bin_str / BitvecBuilder against `parseHex` / `parseBin`.
 -/
-import XehModel.Proofs.BitstrOps
+import XehModel.Proofs.BitstrParse
+import XehModel.Proofs.BitstrCodec
 
 namespace Xeh.C04
 open Xeh Xeh.Bits Xeh.Bitstr
@@ -208,33 +208,138 @@ example : WF (fromVec Heap.empty [0xab, 0xcd, 0xef]).1 ⟨3, 16, 0⟩ := by
   simp [fromVec, Heap.alloc, Heap.view, Heap.empty] at hb
   omega
 
-/-
-Statements not yet proved (full strength, kept visible; currently validated by Tie A + oracle only):
+/-! ### the mutating operations: append, insert, invert (bitstr.rs `append_bits_mut`, `append`, `insert`, `invert`)
 
-theorem append_refines (h : Heap) (s t : Handle) (ws : WF h s) (wt : WF h t) (hne : s ≠ t as pool entries) :
-    ∃ h' r, append h s t = .ok (h', r) ∧ WF h' r ∧ bits h' r = bits h s ++ bits h t
-      -- for BOTH paths: byte-aligned fast path (extend_from_slice) and bitwise slow path, after
-      -- `truncate(upper_bound_index(end))` + masking of the slack bits of the last byte; unique owner
-      -- with slack after `end_` and stale bits included.
+The receiver is consumed.  `Frame h h' b` (Proofs/BitstrMut.lean) says what may happen to the rest of the heap:
+every buffer other than the receiver's `b` is untouched, and `b`, when anybody else also holds it (count ≥ 2),
+keeps its bytes and loses exactly one count.  The hypothesis on the argument `t` of `append` is the reference-count
+discipline itself: the receiver is passed by value and `t` by reference, so if both point into one buffer its
+count is at least 2. -/
 
-theorem insert_refines (h : Heap) (s t : Handle) (k : Nat) (ws : WF h s) (wt : WF h t) (hk : s.start + k ≤ s.end_) :
+/-- `append`: BOTH paths (byte-aligned `extend_from_slice`, and the bit loop after truncation to the receiver's
+    end and masking of the slack bits of the last byte), any start offset, slack and stale bits after `end`,
+    shared or uniquely owned receiver -/
+theorem append_refines (h : Heap) (s t : Handle) (ws : WF h s) (wt : WF h t)
+    (ht : t.buf = s.buf → 2 ≤ (h.buf s.buf).rc) :
+    ∃ h' r, append h s t = .ok (h', r) ∧ WF h' r ∧ bits h' r = bits h s ++ bits h t ∧ Frame h h' s.buf := by
+  obtain ⟨h', r, h1, h2, h3, _, h5⟩ := append_spec h s t ws wt ht
+  exact ⟨h', r, h1, h2, h3, h5⟩
+
+/-- `insert` at a valid index (no sharing hypothesis at all: the receiver is split first, so its buffer is
+    never written, and the inserted value may even be a clone of the receiver) -/
+theorem insert_refines (h : Heap) (s t : Handle) (k : Nat) (ws : WF h s) (wt : WF h t)
+    (hk : s.start + k ≤ s.end_) (hu : s.end_ ≤ Bitstr.usizeMax) :
     ∃ h' r, insert h s k t = .ok (h', some r) ∧ WF h' r ∧
-      bits h' r = (bits h s).take k ++ bits h t ++ (bits h s).drop k
+      bits h' r = (bits h s).take k ++ bits h t ++ (bits h s).drop k ∧ Frame h h' s.buf := by
+  obtain ⟨h', r, h1, h2, h3, _, h5⟩ := insert_spec h s t k ws wt hk (by omega)
+  exact ⟨h', r, h1, h2, h3, h5⟩
 
+/-- `insert` at an index past the end (or overflowing): `None`, the receiver is dropped, nothing written -/
+theorem insert_out_of_range (h : Heap) (s t : Handle) (k : Nat)
+    (hk : ¬(s.start + k ≤ s.end_ ∧ s.start + k ≤ Bitstr.usizeMax)) :
+    insert h s k t = .ok (drop h s, none) := insert_invalid h s t k hk
+
+/-- `invert` -/
 theorem invert_refines (h : Heap) (s : Handle) (ws : WF h s) :
-    ∃ h' r, invert h s = .ok (h', r) ∧ WF h' r ∧ bits h' r = Bits.invert (bits h s)
+    ∃ h' r, invert h s = .ok (h', r) ∧ WF h' r ∧ bits h' r = Bits.invert (bits h s) ∧ Frame h h' s.buf := by
+  obtain ⟨h', r, h1, h2, h3, _, h5⟩ := invert_spec h s ws
+  exact ⟨h', r, h1, h2, h3, h5⟩
 
-theorem handle_isolation (pool : List Handle) (h : Heap) (hp : PoolWF h pool)   -- rc b = #handles into b
-    (op ∈ {append, insert, invert}) (s ∈ pool consumed) (u ∈ pool, u ≠ s) :
-    bits h' u = bits h u
-      -- in-place mutation happens only when rc = 1, i.e. no other pool handle shares the buffer;
-      -- otherwise a fresh buffer (id = h.next) is written.
+/-- isolation for append / insert / invert: whatever handle `u` exists besides the consumed receiver (into any
+    buffer; into the receiver's own buffer only if the count says so) denotes the same bits afterwards and is
+    still well formed.  In-place mutation happens only when the count is 1, i.e. when no such `u` shares the buffer. -/
+theorem handle_isolation (h h' : Heap) (b : Nat) (f : Frame h h' b) (u : Handle) (wu : WF h u)
+    (hu : u.buf = b → 2 ≤ (h.buf b).rc) : WF h' u ∧ bits h' u = bits h u :=
+  f.isolation u wu hu
 
+/-- the result of append / insert / invert is uniquely owned: a later in-place mutation of it is invisible to everyone -/
+theorem mutated_result_is_unique (h : Heap) (s t : Handle) (k : Nat) (ws : WF h s) (wt : WF h t) :
+    (∀ h' r, invert h s = .ok (h', r) → (h'.buf r.buf).rc = 1) ∧
+    ((t.buf = s.buf → 2 ≤ (h.buf s.buf).rc) → ∀ h' r, append h s t = .ok (h', r) → (h'.buf r.buf).rc = 1) ∧
+    (s.start + k ≤ s.end_ → s.end_ ≤ Bitstr.usizeMax →
+      ∀ h' r, insert h s k t = .ok (h', some r) → (h'.buf r.buf).rc = 1) := by
+  refine ⟨?_, ?_, ?_⟩
+  · intro h' r e
+    obtain ⟨h'', r', h1, _, _, h4, _⟩ := invert_spec h s ws
+    rw [h1] at e; cases e; exact h4
+  · intro ht h' r e
+    obtain ⟨h'', r', h1, _, _, h4, _⟩ := append_spec h s t ws wt ht
+    rw [h1] at e; cases e; exact h4
+  · intro hk hu h' r e
+    obtain ⟨h'', r', h1, _, _, h4, _⟩ := insert_spec h s t k ws wt hk (by omega)
+    rw [h1] at e; cases e; exact h4
+
+/-- the hypotheses are satisfiable in the interesting situation: a 13-bit slice at bit offset 3 of a SHARED
+    buffer (count 2), appended to itself -/
+example :
+    let h : Heap := ((fromVec Heap.empty [0xab, 0xcd, 0xef]).1).incRc 0
+    WF h ⟨3, 16, 0⟩ ∧ (((⟨3, 16, 0⟩ : Handle).buf = (⟨3, 16, 0⟩ : Handle).buf) → 2 ≤ (h.buf 0).rc) := by
+  refine ⟨⟨⟨by decide, by decide, ?_⟩, by decide, by decide⟩, fun _ => by decide⟩
+  intro b hb
+  simp [fromVec, Heap.alloc, Heap.view, Heap.empty, Heap.incRc, Heap.set] at hb
+  omega
+
+/-! ### parsing: `from_hex_str`, `BitvecBuilder::from_bin_str` -/
+
+theorem packed_value (h : Heap) (buf : List Nat) (l : List Bool) (p : Packed buf l) :
+    bits (h.alloc buf false).1 ⟨0, l.length, (h.alloc buf false).2⟩ = l ∧
+    WF (h.alloc buf false).1 ⟨0, l.length, (h.alloc buf false).2⟩ := by
+  have hle : l.length ≤ 8 * buf.length := by rw [p.len]; exact le_8ubi _
+  refine ⟨?_, alloc_WF h buf false 0 _ (Nat.zero_le _) hle p.bytes⟩
+  unfold bits
+  rw [alloc_view]
+  unfold View.bits slice
+  simp only [p.bits, List.drop_zero, Nat.sub_zero]
+  exact List.take_left' rfl
+
+/-- `from_hex_str`: the value built nibble by nibble (`push(val << 4)` / `|= val`) denotes exactly the bits of
+    `parseHex` (4 per digit, ASCII whitespace skipped), starts at bit 0, and a malformed string is rejected at
+    the same character index -/
 theorem fromHexStr_refines (h : Heap) (cs : List Char) :
     match fromHexStr h cs, parseHex cs with
-    | .ok (h', s), .ok l => bits h' s = l ∧ WF h' s
+    | .ok (h', s), .ok l => bits h' s = l ∧ WF h' s ∧ s.start = 0
     | .error p, .error q => p = q
-    | _, _ => False
--/
+    | _, _ => False := by
+  have key := fromHexBytes_spec cs 0 [] [] packed_nil rfl
+  unfold fromHexStr parseHex
+  simp only [List.length_nil, List.nil_append] at key
+  revert key
+  cases fromHexBytes cs 0 0 [] with
+  | error e => cases parseHex.go cs 0 <;> simp
+  | ok res =>
+    obtain ⟨buf, n⟩ := res
+    cases parseHex.go cs 0 with
+    | error q => simp
+    | ok l =>
+      simp only
+      rintro ⟨p, rfl⟩
+      obtain ⟨e1, e2⟩ := packed_value h buf l p
+      exact ⟨e1, e2, trivial⟩
+
+/-- `BitvecBuilder::from_bin_str` (and with it `append_bit` / `finish`) -/
+theorem fromBinStr_refines (h : Heap) (cs : List Char) :
+    match fromBinStr h cs, parseBin cs with
+    | .ok (h', s), .ok l => bits h' s = l ∧ WF h' s ∧ s.start = 0
+    | .error p, .error q => p = q
+    | _, _ => False := by
+  have key := fromBinBytes_spec cs 0 [] [] packed_nil
+  unfold fromBinStr parseBin
+  simp only [List.length_nil, List.nil_append] at key
+  revert key
+  cases fromBinBytes cs 0 [] 0 with
+  | error e => cases parseBin.go cs 0 <;> simp
+  | ok res =>
+    obtain ⟨buf, n⟩ := res
+    cases parseBin.go cs 0 with
+    | error q => simp
+    | ok l =>
+      simp only
+      rintro ⟨p, rfl⟩
+      obtain ⟨e1, e2⟩ := packed_value h buf l p
+      exact ⟨e1, e2, trivial⟩
+
+/-- non-vacuity: a well-formed and a malformed hex string -/
+example : parseHex ['a', ' ', '5'] = .ok [true, false, true, false, false, true, false, true] ∧
+    parseHex ['a', ' ', 'g'] = .error 2 := ⟨by rfl, by rfl⟩
 
 end Xeh.C04
